@@ -157,6 +157,14 @@ def run(ctx):
         raise tlc.MachineryError("MC_WL failed: %s" % (res.errors[:2] or res.stdout[-600:]))
     for v in res.violated:
         ctx.violation("model:" + v, {"module": "MC_WL"})
+    if not ctx.quick:
+        # the composition of the object state machine and the sampler (LocalCider.tla): the components do not interfere
+        res2 = tlc.run_tlc("MC_LocalCider", os.path.join(tlc.SPEC_DIR, "MC_LocalCider.cfg"), ctx.work, timeout=3600, continue_=True, tag="lib")
+        ctx.add_tlc(res2)
+        if res2.errors or not res2.completed:
+            raise tlc.MachineryError("MC_LocalCider failed: %s" % (res2.errors[:2] or res2.stdout[-600:]))
+        for v in res2.violated:
+            ctx.violation("model:" + v, {"module": "MC_LocalCider"})
     # (V)
     trs = []
     nruns = ctx.pick(10, 60)
